@@ -43,7 +43,7 @@ fn eq32(a: &[u8; 32], b: &[u8; 32]) -> bool {
 /// deletions before upserts, attachment writes last.
 const PHASE: [u8; 9] = [1, 2, 3, 4, 5, 6, 7, 8, 8];
 
-//@ also=C04 tier=quick timeout=1500 mem=10 bits=2048 unwind=4 unwindset="memcmp=34;eq32=33;c01_merge::c01_sort_key=10" fns=warp_core::tick_patch::WarpOp::sort_key
+//@ tier=quick timeout=1500 mem=10 bits=2048 unwind=4 unwindset="memcmp=34;eq32=33;c01_merge::c01_sort_key=10" fns=warp_core::tick_patch::WarpOp::sort_key
 //@ bounds="every ordered pair of operation kinds (9 x 9 shapes, concrete loops), every identifier fully symbolic"
 //@ desc="canonical op key: two ops get equal keys exactly when they are the same kind of edit of the same location (so dedupe never merges different locations and never misses a duplicate), ops of different replay phases order by phase whatever their ids (instances < deletions < upserts < attachments), and the order is antisymmetric"
 proof! {
